@@ -49,6 +49,7 @@ def gen_cases(rng, sides, n, drop):
     gen = G.Gen(rng, notations=plain)
     generated = [gen.random_notation(2, f'g{i}') for i in range(12)]
     gen.notations += generated
+    spines = G.spine_notations(rng)
     allnots = [nt for nt in sides.shipped if nt.chunks is not None or nt.expr is not None]
     cases = []
     for _ in range(n):
@@ -88,6 +89,21 @@ def gen_cases(rng, sides, n, drop):
             ref = f'#{nt.nid}' if hasattr(nt, 'nid') else ' '.join(nt.toks())
             op = 'RT'
             args = ' '.join([ref, str(len(targs))] + [PC.show(a) for a in targs])
+        elif c < 0.92:    # deconstruct_nary_application: the spine must rebuild the pattern
+            nts = [x for x in allnots if x.family == 'nary_app'] + spines + ([rng.choice(allnots)] if rng.random() < 0.2 else [])
+            nt = rng.choice([x for x in nts if x.arity >= 1])
+            a_ = [gen.term(rng.choice([0, 1, 2])) for _ in range(nt.arity)]
+            items = list(enumerate(a_))
+            if rng.random() < 0.35:
+                rng.shuffle(items)
+            p = ('I', nt.definition, tuple(items))
+            if rng.random() < 0.5:
+                op, args = 'DN', PC.show(p)
+            else:
+                q = ('I', nt.definition, tuple(enumerate(a_))) if rng.random() < 0.6 else present(rng, gen, p, drop)
+                if rng.random() < 0.5:
+                    p, q = q, p
+                op, args = 'DNP', PC.show(p) + ' ' + PC.show(q)
         else:
             nt = rng.choice(allnots) if rng.random() < 0.6 else rng.choice(generated)
             if rng.random() < 0.7:
